@@ -30,6 +30,7 @@ from checks import cfgcommon as CC
 from ref import cfg as R
 
 HISTORY_SKIP_UNALIGNED = True
+ALT_TOPICS = ("blocks",)
 PROPERTY = "C10"
 LEVEL = "exploration"
 RULE = ("all skeletons of <=3 (thorough <=4) slots over an 8-kind slot alphabet with branch/switch targets over all slots; "
